@@ -146,6 +146,10 @@ def r2(ctx):
                 # whole-struct overwrite of a Session (mem::replace / assignment through &mut)
                 if s.k == "a" and s.lhs.proj == ("*",) and b.local_ty(s.lhs.local).endswith("&mut crate::handler::session::Session"):
                     writers.setdefault(strip_closure(pth), []).append(("overwrite", s.line))
+        for bi, t in b.calls():
+            if re.search(r"mem::(replace|swap|take)(::<.*>)?$", t.callee() or "") and t.args and t.args[0].place is not None and \
+                    re.search(r"&mut crate::handler::session::Session$", b.place_ty(t.args[0].place) or ""):
+                writers.setdefault(strip_closure(pth), []).append(("overwrite", t.line))
     ok = set(writers) == {S + "new", S + "encrypt_message"} and [k for k, _ in writers.get(S + "new", [])] == ["construct:0"] and \
         all(k == "assign" for k, _ in writers.get(S + "encrypt_message", []))
     rule.check(ok, "writers of Session.counter: %s" % {k.split("::")[-1]: [x[0] for x in v] for k, v in writers.items()}, "counter|writers",
